@@ -3,7 +3,7 @@ from vlib import gen, harness
 
 PID = "C02"
 PROPS = ["Props/C02.v"]
-GEN = []
+GEN = ['ParseConst.v']
 MODEL_IS_SPEC = True
 RULE = ("well-typed filter queries (tests of relative/absolute queries, !, &&, ||, comparisons, built-in function calls, nested filters up to depth 3, "
         "explicit parentheses) rendered in random legal spellings x JSON values forced to contain falsy children (0, false, \"\", null, [], {}); "
